@@ -99,6 +99,18 @@ func checkOneAnnounced(p prog.Program, o prog.Options, st *fw.Stats, announce fu
 				again.Trace, prod.Trace, again.Globals, prod.Globals, again.Failed, again.ErrPos, strings.Join(again.Frames, " "), again.Steps, prod.Failed, prod.ErrPos, strings.Join(prod.Frames, " "), prod.Steps)
 		}
 	}
+	// the program written by Program.Write and read back by CompiledProgram observes the same
+	if rel := prog.RunProdReloaded(src, o); rel != nil && prod.Inconcl == "" && rel.Inconcl == "" {
+		st.Count("executions_of_the_program_read_back", 1)
+		switch {
+		case rel.Panic != "":
+			return src, "the program written and read back: " + rel.Panic
+		case strings.Join(rel.Trace, "|") != strings.Join(prod.Trace, "|") || rel.Globals != prod.Globals || rel.Failed != prod.Failed ||
+			rel.ErrPos != prod.ErrPos || strings.Join(rel.Frames, " ") != strings.Join(prod.Frames, " ") || rel.Steps != prod.Steps:
+			return src, fmt.Sprintf("the program written and read back differs from the program as compiled: trace %v vs %v; globals %s vs %s; failed %v@%v [%s] steps %d vs %v@%v [%s] steps %d",
+				rel.Trace, prod.Trace, rel.Globals, prod.Globals, rel.Failed, rel.ErrPos, strings.Join(rel.Frames, " "), rel.Steps, prod.Failed, prod.ErrPos, strings.Join(prod.Frames, " "), prod.Steps)
+		}
+	}
 	return src, ""
 }
 
@@ -246,7 +258,7 @@ func init() {
 		Rule: "every program of each grammar profile (expr, plus, assign, control, scope, call, load, comp, fold, escape, alias, chains; scale: 15 templates in which one table of the compiled form - globals, locals, constants, functions, free variables, defaults, arguments, jump distances - has n members, n on both sides of 2^7, 2^8, 2^14 and 2^16) of size level n, n = 1, 2, ... (iterative deepening), " +
 			"rendered to source and executed by the production pipeline and by the reference evaluator under the needed options, all options on, and (every 64th) all 16 combinations of set/while/recursion/top-level control; " +
 			"compared: probe trace with argument values, final globals with aliasing, success/failure and the position of the failing operation; " +
-			"every statically valid program is also initialised a second time from the same compiled Program on the same thread and must observe the same; non-trivial = program runs in which at least one probe fired or the program failed",
+			"every statically valid program is also initialised a second time from the same compiled Program on the same thread and must observe the same, and so must the program written by Program.Write and read back by CompiledProgram, in a fresh environment; non-trivial = program runs in which at least one probe fired or the program failed",
 		Run: run, Worker: worker, Replay: replay,
 		Assumptions: []string{
 			"primitive value operations are shared with production (exported starlark.Binary/Compare/Call/Iterate): their semantics are the subject of C10-C13",
